@@ -1,6 +1,7 @@
 from props import *  # noqa: F401,F403
 
 rc_bin("c04_rc", ["harness/c04_span_content.cc"], lib=True)
+rc_bin("c04_tsan", ["harness/c04_span_content.cc"], lib=True, san="tsan")
 PROPS["C04"] = dict(
     level_text="Model-based property tests: generated span programs (all attribute value alternatives, duplicate keys, "
                "events/links/status/name/options, operations after End, 1..3 mixed processors, short-lived non NUL-terminated "
@@ -18,5 +19,8 @@ PROPS["C04"] = dict(
     runs=[
         run("program", "c04_rc", "span_program", "rc", dict(procs=8, cases=2500), dict(procs=16, cases=30000)),
         run("threads", "c04_rc", "span_threads", "rc", dict(procs=3, cases=600), dict(procs=8, cases=6000), deterministic=False),
+        run("end-race", "c04_rc", "span_end_race", "rc", dict(procs=2, cases=400), dict(procs=4, cases=6000), deterministic=False),
+        run("end-race-tsan", "c04_tsan", "span_end_race", "rc", dict(procs=2, cases=200), dict(procs=4, cases=3000), deterministic=False, replay_bin="c04_tsan"),
+        run("threads-tsan", "c04_tsan", "span_threads", "rc", dict(procs=2, cases=250), dict(procs=4, cases=4000), deterministic=False, replay_bin="c04_tsan"),
     ],
 )
